@@ -219,11 +219,33 @@ def build_formula(tree, lang):
     return getattr(L, op)(*args)
 
 
+import re as _re
+
+_IDENT = _re.compile(r'^[a-zA-Z_][a-zA-Z_0-9]*$')
+_RESERVED = set(['A', 'E', 'X', 'F', 'G', 'U', 'R', 'not', 'and', 'or',
+                 'true', 'false'])
+
+
+def atom_text(a):
+    """Text of an atom: bare if identifier-style and not reserved, else
+    double-quoted (the grammars accept ESCAPED_STRING atoms); None if the
+    name cannot be written (contains a quote, backslash or newline)."""
+    if _IDENT.match(a) and a not in _RESERVED:
+        return a
+    if '"' in a or '\\' in a or '\n' in a or '\r' in a:
+        return None
+    return '"' + a + '"'
+
+
+def text_writable(tree):
+    return all(atom_text(a) is not None for a in formula_atoms(tree))
+
+
 def formula_text(tree):
-    """Text form in the library's CTL* notation (identifier atoms only)."""
+    """Text form in the library's CTL* notation."""
     op = tree[0]
     if op == 'ap':
-        return tree[1]
+        return atom_text(tree[1])
     if op == 'bool':
         return 'true' if tree[1] else 'false'
     if op == 'Not':
